@@ -15,7 +15,7 @@ def rd (ws : Array Nat) (i : Nat) : Nat := ws.getD i 0
 
 theorem rd_set (ws : Array Nat) (j w i : Nat) :
     rd (ws.setIfInBounds j w) i = if i = j ∧ j < ws.size then w else rd ws i :=
-  getD_setIfInBounds ws j w i
+  getD_setIfInBounds' ws j w i
 
 theorem rd_set_self (ws : Array Nat) (j w : Nat) (h : j < ws.size) :
     rd (ws.setIfInBounds j w) j = w := by
@@ -28,7 +28,7 @@ theorem rd_set_ne (ws : Array Nat) (j w i : Nat) (h : i ≠ j) :
 theorem rd_lt {W : Nat} {ws : Array Nat} (h : WordsOK W ws) (i : Nat) : rd ws i < 2 ^ W :=
   getD_lt_of_WordsOK h i
 
-theorem rd_of_ge {ws : Array Nat} {i : Nat} (h : ws.size ≤ i) : rd ws i = 0 := getD_of_ge h
+theorem rd_of_ge {ws : Array Nat} {i : Nat} (h : ws.size ≤ i) : rd ws i = 0 := getD_of_ge' h
 
 theorem readS_rd {ws : Array Nat} {i : Nat} (h : i < ws.size) : Out.readS ws i = .ok (rd ws i) :=
   readS_eq h
